@@ -10,8 +10,10 @@
                      every lookup result) so it fits 14 bits; a pointer replaces only suffixes of >= 3 bytes, so a name never grows
   C06.d bounded copies   no copy from the input packet into the output below compress() takes an open-ended range packet[a..] (inside the
                      record walk that would emit everything behind the current record twice: the packet grows and is no longer accepted)
+  C06.e match predicate  the per-byte step of the dictionary comparison says "different" exactly when lower(c1) != lower(c2), for all 65 536
+                     pairs (E3 region evaluation of the zipped byte loop)
 
-Not decided: case-insensitive matching, that decompressing gives the input back, the 16-indirection budget of the output
+Not decided: that decompressing gives the input back, the 16-indirection budget of the output
 (design note D18), table wrap-around behaviour.
 """
 from analysis import facts as F
@@ -75,6 +77,28 @@ def _fold(e):
         if r is not None:
             return ('const', r)
     return e
+
+
+def match_predicate_rule(ctx, facts, cfg):
+    """C06.e: the suffix dictionary treats two stored/looked-up names as the same exactly when every pair of bytes is equal up to ASCII
+    case: the per-byte step of SuffixDict::raw_names_eq_ignore_case, evaluated for all 65 536 byte pairs (E3)."""
+    rid = 'C06.e'
+    from rules import bytecmp
+    key = 'compress::SuffixDict::raw_names_eq_ignore_case'
+    f = facts.fn(key)
+    if f is None:
+        ctx.missing(rid, key)
+        return
+    table, why = bytecmp.zip_loop_table(facts, key)
+    if table is None:
+        ctx.violation(rid, key, 'undecided', 'the byte comparison of the suffix dictionary could not be evaluated: %s' % why, kind='undecided', site=f['at'], config=cfg)
+        return
+    bad = bytecmp.compare_with_spec(table)
+    ctx.instance(rid, 'dictionary comparison step: "different" <=> lower(c1) != lower(c2) for all 65536 byte pairs (%d disagree)' % len(bad), ok=not bad, site=f['at'])
+    if bad:
+        c1, c2, got = bad[0]
+        ctx.violation(rid, key, 'byte-predicate', 'the suffix dictionary compares bytes wrongly for %d of 65536 pairs, e.g. 0x%02x vs 0x%02x is treated as %s: a name can be replaced by a pointer to a '
+                      'different name (or an equal name not be found)' % (len(bad), c1, c2, 'equal' if got is False else 'different' if got else 'position-dependent'), site=f['at'], config=cfg)
 
 
 def pointer_rule(ctx, facts, cfg):
@@ -158,4 +182,5 @@ def run(ctx):
         reemit.cursor_rule(ctx, facts, cfg, 'C06.b', ['compress::Compress::compress'])
         reemit.open_ended_rule(ctx, facts, cfg, 'C06.d', 'compress::Compress::compress', ('compress::',), 6, 'the compressor')
         pointer_rule(ctx, facts, cfg)
+        match_predicate_rule(ctx, facts, cfg)
     ctx.trust('analysis/interp.py contracts; SuffixDict::insert treated as opaque for the accounting (its result is any Option<usize>)')
